@@ -111,27 +111,35 @@ def declared_members(rep):
     return names
 
 
-def run(rep, tier):
-    run_jobs(rep, "C10", tier)
-    # unbounded part: move construction / move assignment / switch setters under DFCC contracts (all member values symbolic)
+def run_value_ops(rep, pid, which=("move_assign", "move_ctor", "setters")):
+    """unbounded part: move construction / move assignment / switch setters under DFCC contracts (all member values symbolic), recorded for `pid`"""
     decl = declared_members(rep)
     if sorted(decl) != sorted(MEMBERS):
         raise core.ExtractionError("data members of class SQuIDS differ from the contract's member list: declared-only %s, contract-only %s" %
                                    (sorted(set(decl) - set(MEMBERS)), sorted(set(MEMBERS) - set(decl))))
-    bdir = core.builddir("C10.move")
+    bdir = core.builddir(pid + ".move")
     ct = extract.instantiate(open(os.path.join(core.VERIF, "contracts", "squids_move_l1.c")).read(), rep)
     rep.dropped.append("move operations: owning members (std::vector, unique_ptr, Const) -> handles, std::move(other.m) -> sq_take(&other->m); `*this` return dropped")
-    jobs = [l1.Job("move_assign", ct, "h_move_assign", enforce="SQuIDS_move_assign", includes=INC, timeout=300, function_label="SQuIDS::operator=(SQuIDS&&)", where="src/SQuIDS.cpp"),
-            l1.Job("move_ctor", ct, "h_move_ctor", enforce="SQuIDS_move_ctor", includes=INC, timeout=300, function_label="SQuIDS::SQuIDS(SQuIDS&&)", where="src/SQuIDS.cpp")]
-    for nm in ("CoherentRhoTerms", "NonCoherentRhoTerms", "OtherRhoTerms", "GammaScalarTerms", "OtherScalarTerms"):
-        jobs.append(l1.Job("Set_" + nm, ct, "h_Set_" + nm, enforce="SQuIDS_Set_" + nm, includes=INC, timeout=120, function_label="SQuIDS::Set_" + nm, where="src/SQuIDS.cpp"))
+    jobs = []
+    if "move_assign" in which:
+        jobs.append(l1.Job("move_assign", ct, "h_move_assign", enforce="SQuIDS_move_assign", includes=INC, timeout=300, function_label="SQuIDS::operator=(SQuIDS&&)", where="src/SQuIDS.cpp"))
+    if "move_ctor" in which:
+        jobs.append(l1.Job("move_ctor", ct, "h_move_ctor", enforce="SQuIDS_move_ctor", includes=INC, timeout=300, function_label="SQuIDS::SQuIDS(SQuIDS&&)", where="src/SQuIDS.cpp"))
+    if "setters" in which:
+        for nm in ("CoherentRhoTerms", "NonCoherentRhoTerms", "OtherRhoTerms", "GammaScalarTerms", "OtherScalarTerms"):
+            jobs.append(l1.Job("Set_" + nm, ct, "h_Set_" + nm, enforce="SQuIDS_Set_" + nm, includes=INC, timeout=120, function_label="SQuIDS::Set_" + nm, where="src/SQuIDS.cpp"))
     for res in core.pmap(lambda j: l1.run_job(j, bdir), jobs):
-        for p in l1.record(rep, res, "C10"):
-            oid = "C10.%s.%s" % (res.job.name, p.name)
+        for p in l1.record(rep, res, pid):
+            oid = "%s.%s.%s" % (pid, res.job.name, p.name)
             data = dict(obligation=p.name, description=p.desc, location=p.loc, verifier="cbmc/dfcc", witness=dict(scenario=res.job.name, seed=core.SEED))
-            path = core.write_replay("C10", oid, data)
-            ok = replaylib.run_replay("C10", path, prog="solver")
+            path = core.write_replay(pid, oid, data)
+            ok = replaylib.run_replay(pid, path, prog="solver")
             rep.violation(oid, path, nofail=not ok)
+
+
+def run(rep, tier):
+    run_jobs(rep, "C10", tier)
+    run_value_ops(rep, "C10")
 
 
 def replay(path):
